@@ -102,7 +102,7 @@ def run_flavor(ctx, name, defs, progs, n, driver=None, src='scen_gp.c', orc=None
     ctx.cov['evaluations'] += len(cases); ctx.cov['distinct_nontrivial'] += len(distinct)
     ctx.cov['oracle_violations'] = ctx.cov.get('oracle_violations', 0) + nor
     ctx.cov['input_distribution'][name] = {'cases': len(cases)}
-    if driver: refine(ctx, driver, cases, raws, '%s accepts the trace of src/urcu.c (%s)' % (model, name), project)
+    if driver: refine(ctx, driver, cases, raws, '%s accepts the trace of %s (%s)' % (model, 'src/urcu-qsbr.c' if 'qsbr' in name else 'src/urcu.c', name), project)
 
 def run(ctx):
     ctx.cov['source_hash'] = source_hash(FILES)
@@ -113,7 +113,8 @@ def run(ctx):
     run_flavor(ctx, 'scen_gp_memb_nomembarrier', ['-DNO_MEMBARRIER'], PROGS, n // 2)
     mbdriver = build_model_driver(ctx, 'gpmb', 'ExtractGpMb.v', 'gpmb_driver.ml')
     run_flavor(ctx, 'scen_gp_mb', ['-DFLAVOR_MB'], PROGS, n // 2, mbdriver, project=G.project_mb, model='GpMbExec (mb model)')
-    run_flavor(ctx, 'scen_qsbr', [], QPROGS, n, src='scen_qsbr.c', orc=G.qsbr_oracle, extra_cases=qsbr_cases(ctx))
+    qdriver = build_model_driver(ctx, 'gpqsbr', 'ExtractGpQsbr.v', 'gpqsbr_driver.ml')
+    run_flavor(ctx, 'scen_qsbr', [], QPROGS, n, qdriver, src='scen_qsbr.c', orc=G.qsbr_oracle, project=G.project_qsbr, model='GpQsbrExec (qsbr model)', extra_cases=qsbr_cases(ctx))
     run_flavor(ctx, 'scen_sig_bp_c01', ['-DFLAVOR_BP'], BPPROGS, n // 2, src='scen_sig.c', extra_cases=bp_cases(ctx))
     return finish(ctx, trusted=TRUSTED, rule='Step/Flush schedules = corpus + parking sweeps (each thread frozen after k steps while the others complete 1 or 2 whole operations, '
                   'store buffers flushed eagerly or not) + bursty random (flush probability 0-0.3); every scenario has >= 2 consecutive grace periods and both litmus load orders; '
